@@ -1,0 +1,13 @@
+//go:build verif
+
+package proxy
+
+// Verification hooks for property C20 (add-only; compiled only with -tags verif).
+
+// VerifParseNonce exposes parseNonce.
+func VerifParseNonce(csp string) string { return parseNonce(csp) }
+
+// VerifInsertScript exposes insertScriptTagIntoBody.
+func VerifInsertScript(nonce, body string) (string, error) {
+	return insertScriptTagIntoBody(nonce, body)
+}
